@@ -53,6 +53,9 @@ CLASSES = {
     'slow-finishing': (None, 'run'),
     'import-loop': ("import helper\nprint('never')\n", 'run'),
     'swallow-once-then-finish': ("x = 0\ntry:\n    while True:\n        x += 1\nexcept BaseException:\n    x = -1\ny = x + 1\n", 'run'),
+    # `except Exception` does not catch the SystemExit that ends an abandoned thread: these two are mortal
+    'swallow-exception': ("x = 0\nwhile True:\n    try:\n        x += 1\n    except Exception:\n        pass\n", 'run'),
+    'swallow-exception-print': ("while True:\n    try:\n        print('ee')\n    except Exception:\n        pass\n", 'run'),
     'call-spin': ("def spin(n, pad=''):\n    print('spinning')\n    while True:\n        n += 1\n", 'call'),
     'eval-spin': ("def spin(n, pad=''):\n    while True:\n        n += 1\n", 'evaluate'),
 }
@@ -196,6 +199,7 @@ ZOMBIE_KIND = {
     'import-loop': 'mortal-printing',      # the imported file prints once before it loops (possibly late, from its own nested thread)
     'call-spin': 'mortal-silent', 'eval-spin': 'mortal-silent', 'slow-finishing': 'mortal-silent',
     'swallow-once-then-finish': 'mortal-silent',
+    'swallow-exception': 'mortal-silent', 'swallow-exception-print': 'mortal-printing',
     'print-loop': 'mortal-printing', 'finally-print': 'mortal-printing', 'input-loop': 'mortal-reading',
     'swallow': 'immortal-silent', 'swallow-print': 'immortal-printing', 'swallow-input': 'immortal-reading',
     'blocked-event': 'blocked', 'blocked-lock': 'blocked',
@@ -351,6 +355,18 @@ def judge(spec, res, k=None):
                 viol('T4-next-execution-starts-patched', 'before op %d: patch stack depth %d, %s' % (
                     i + 1, b['stacks'][0], b['global_problems'][:3]))
                 break
+    # T4: an abandoned thread whose program does not catch BaseException ends once the asynchronous exception has
+    # landed in it (whatever it still prints on the way out is the listed window; going on forever is not)
+    d0 = res.get('drained')
+    if primary and d0 is not None and meta['cls'] not in IMMORTAL and d0.get('alive'):
+        # (own events since the landing: a thread the schedule starved has not had the chance to unwind yet)
+        own = {t[0]: t[2] for t in res['sched'].get('thread_states') or []}
+        landed_in = {x[0]: x[6] for x in res['sched'].get('landings') or [] if len(x) > 6}
+        survivors = sorted(t for t in d0['alive'] if t in landed_in and own.get(t, 0) - landed_in[t] > 300)
+        if survivors:
+            viol('T4-abandoned-thread-survived-its-termination',
+                 'thread(s) %s still run after the asynchronous exception landed in them (class %s does not catch BaseException)' % (
+                     survivors, meta['cls']))
     if vs:
         return vs
     # ---- T4b: later executions equal the reference.  (Not after a LATER execution timed out: the reference ran
